@@ -231,7 +231,8 @@ pub struct Project {
     pub counter: u32,
 }
 
-pub const LIB_NAMES: &[&str] = &["Alpha", "Beta", "Gamma", "Delta", "Eps"];
+// some names are proper prefixes of others (Al, Alpha, AlphaB; Ga, Gamma): package identity must not be decided by prefix
+pub const LIB_NAMES: &[&str] = &["Alpha", "Beta", "Al", "AlphaB", "Gamma", "Ga", "Delta", "Eps"];
 
 impl Ty {
     pub fn nominal(&self) -> Option<Ref> {
